@@ -27,7 +27,7 @@ RANKS = '23456789TJQKA'
 
 
 # areas of the pure core whose TRANSLATION (Generated/PyCore.lean) is run next to the real code in this check
-TRANSLATED_AREAS = ('hands',)
+TRANSLATED_AREAS = ('hands', 'msg')
 
 def cs(cards):
     return ','.join(str(c) for c in sorted(cards)) if cards else '-'
